@@ -5,4 +5,4 @@ From GV Require Import Model.ServerLife.
 Extraction Language OCaml.
 Definition force_types : Z * N * nat := (Z.of_N (N.of_nat (Z.to_nat 0%Z)), 0%N, 0%nat).
 Extraction "../build/ml/mC09.ml" force_types init step settle hstep pair_lands exit_handler
-  find_task unfinished.
+  find_task unfinished wrun.
